@@ -588,6 +588,43 @@ def run(rec):
                                 continue
                             case_async(rec, data, cs, chunking, h)
                             rec.case(('async', data, cs, chunking, h) if nontrivial(h) else None)
+    # ---- family D3: 3-byte delimiters (a delimiter prefix of 2 bytes can sit at the end of the buffered data
+    #      while a size cap lands inside it) - data long enough to hold leftover + delimiter + tail
+    d3 = [b'XYX', b'XXY']
+    lens = (4, 5) if quick else (4, 5, 6)
+    for n in lens:
+        for tup in itertools.product(alphabet, repeat=n):
+            data = b''.join(tup)
+            if b'XY' not in data and b'XX' not in data:
+                continue
+            for d in d3:
+                if d[:2] not in data:
+                    continue
+                for cs in (3, 4, 5):
+                    hs = []
+                    for k in (0, 1, 2):
+                        for size in (-1, 1, 2, 3, 4):
+                            for consume in (False, True):
+                                hs.append((('read', k), ('read_until', d, size, consume)) if k else
+                                          (('read_until', d, size, consume),))
+                        hs.append((('read', k), ('pipe_until', d, False), ('read', 1)) if k else (('pipe_until', d, True),))
+                        hs.append((('read', k), ('delimit', d, (('read', 2), ('read', -1)))) if k else
+                                  (('delimit', d, (('peek', 2), ('read', 1))),))
+                    for h in hs:
+                        idx += 1
+                        if idx % rec.nshards != rec.shard:
+                            continue
+                        for pattern in (None, (1,), (3,)):
+                            for cls, cname in classes:
+                                if cname != 'pure' and _has_delimit(h):
+                                    continue
+                                case_sync(rec, cls, cname, data, n, cs, pattern, h)
+                        rec.case(('d3s', data, d, cs, h))
+                        rec.count('d3.histories')
+                        if rec.mode == 'pure':
+                            for chunking in compositions(n, with_empty=False):
+                                case_async(rec, data, cs, chunking, h)
+                            rec.case(('d3a', data, d, cs, h))
     rec.exhaustive = True
     if rec.shard == 0:
         rec.note('exhaustive: data len <= %d over {a,X,Y}, chunk sizes 1..%d, single-op histories (+final read) over all op shapes; '
@@ -646,6 +683,7 @@ def run(rec):
     rec.floor('mon.sync.op.pipe_until', 20)
     rec.floor('sync.history_ended_by_delimiter_error', 5)
     rec.floor('random.sync', 20)
+    rec.floor('d3.histories', 100)
     if rec.mode == 'pure':
         rec.floor('mon.async.op.read_until', 100)
         rec.floor('mon.async.op.delimit', 20)
